@@ -132,6 +132,60 @@ structure SampleMatches (P : Params) (s : Sample) (o : OSample) : Prop where
   exemplar : exemplarMatches P s.exemplar o.exemplar
   nh : o.nh = none
 
+/-! ## the converse: rendering parsed samples again -/
+
+/-- how parsed numbers are written again (CPython, parameters): `repr(float(v))` of a parsed value, the double `float(v)`, and
+`repr(f)` of a parsed float timestamp; the laws about them are stated where they are used (`BackLaws`) -/
+structure Rerender where
+  reprNum : Num → Str
+  toF : Num → Nat
+  reprFlt : Nat → Str
+
+/-- a parsed timestamp as the exposition sees it: a `Timestamp` object, or a float by its `repr` -/
+def tsBack (R : Rerender) : OTs → Ts
+  | .stamp s n => .stamp s n
+  | .flt b => .flt (R.reprFlt b)
+
+def exBack (R : Rerender) (e : OExemplar) : Exemplar := ⟨e.labels, R.reprNum e.value, e.ts.map (tsBack R)⟩
+
+/-- a parsed sample (not a native histogram) handed to the exposition again -/
+def sampleBack (R : Rerender) (o : OSample) : Sample :=
+  ⟨o.name, o.labels.getD [], R.reprNum (o.value.getD (.int 0)), o.ts.map (fun t => ⟨tsBack R t, 0⟩), o.exemplar.map (exBack R)⟩
+
+def famBack (R : Rerender) (f : OFamily) : Family := ⟨f.name, f.doc, f.typ, f.unit, f.samples.map (sampleBack R)⟩
+
+/-- the laws about the numbers of ONE parsed sample: its value (and its exemplar's) is rendered to a token that `float()` reads
+as `float(v)`; a float timestamp `f` is rendered to a `repr` in the float grammar that `float()` reads back as `f`; no exemplar label
+occupies the metric-name slot (`# {"x"} 1` is accepted as `{'__name__': 'x'}`) -/
+structure BackLaws (P : Params) (R : Rerender) (o : OSample) : Prop where
+  value : ∀ v, o.value = some v → ValTok P (Utils.floatToGoString (R.reprNum v)) (R.toF v)
+  ts : ∀ b, o.ts = some (.flt b) → TsOK P (.flt (R.reprFlt b)) ∧ P.pyFloat (R.reprFlt b) = some b
+  exValue : ∀ e, o.exemplar = some e → ValTok P (Utils.floatToGoString (R.reprNum e.value)) (R.toF e.value)
+  exTs : ∀ e b, o.exemplar = some e → e.ts = some (.flt b) → TsOK P (.flt (R.reprFlt b)) ∧ P.pyFloat (R.reprFlt b) = some b
+  exName : ∀ e, o.exemplar = some e → ∀ kv ∈ e.labels, kv.1 ≠ cs!"__name__"
+
+/-- a parsed timestamp and what its re-rendering parses to: a `Timestamp` comes back as ITSELF; a float as the same instant -/
+def otsSame (P : Params) (R : Rerender) : Option OTs → Option OTs → Prop
+  | none, none => True
+  | some (.stamp s n), some o => o = .stamp s n
+  | some (.flt b), some o => tsSame P (.flt (R.reprFlt b)) o
+  | _, _ => False
+
+def oexSame (P : Params) (R : Rerender) : Option OExemplar → Option OExemplar → Prop
+  | none, none => True
+  | some e, some e' => e'.labels = sortByKey e.labels ∧ e'.value = .flt (R.toF e.value) ∧ otsSame P R e.ts e'.ts
+  | _, _ => False
+
+/-- a parsed sample and what its re-rendering parses to: the same name, the same label DICT (the exposition sorts by key), the
+value as the double `float(v)`, timestamps by `otsSame`, the exemplar likewise -/
+structure SampleSame (P : Params) (R : Rerender) (o o' : OSample) : Prop where
+  name : o'.name = o.name
+  labels : o'.labels = o.labels.map sortByKey
+  value : o'.value = o.value.map (fun v => Num.flt (R.toF v))
+  ts : otsSame P R o.ts o'.ts
+  exemplar : oexSame P R o.exemplar o'.exemplar
+  nh : o'.nh = none
+
 /-- pointwise relation of two lists of equal length -/
 inductive Forall2 {α β : Type} (R : α → β → Prop) : List α → List β → Prop
   | nil : Forall2 R [] []
